@@ -87,6 +87,10 @@ def extract(config='default', repo=None, work=None, log=None):
     out = os.path.join(work, 'facts', key, config)
     marker = os.path.join(out, 'DONE')
     if os.path.exists(marker):
+        try:
+            os.utime(os.path.join(work, 'facts', key), None)
+        except OSError:
+            pass
         return out, key, True
     lock = open(os.path.join(work, 'extract.lock'), 'w')
     fcntl.flock(lock, fcntl.LOCK_EX)
@@ -136,11 +140,14 @@ def extract(config='default', repo=None, work=None, log=None):
         lock.close()
 
 
-def _gc(facts_dir, keep, max_entries=6):
+def _gc(facts_dir, keep, max_entries=24, min_age_s=1800):
+    """drop old cache entries; never one that may still be in use by a concurrent run (younger than min_age_s)"""
     try:
         ents = [(os.path.getmtime(os.path.join(facts_dir, e)), e) for e in os.listdir(facts_dir) if e != keep]
     except OSError:
         return
     ents.sort(reverse=True)
-    for _, e in ents[max_entries - 1:]:
-        shutil.rmtree(os.path.join(facts_dir, e), ignore_errors=True)
+    now = time.time()
+    for mt, e in ents[max_entries - 1:]:
+        if now - mt > min_age_s:
+            shutil.rmtree(os.path.join(facts_dir, e), ignore_errors=True)
